@@ -39,6 +39,8 @@ type opRec struct {
 }
 
 type sched struct {
+	order   []int // thread id of every executed step (for exact replays)
+	forced  []int // when non-empty: the schedule to follow (thread ids), then fall back to the strategy
 	threads []*sthread
 	cur     *sthread
 	clock   int
@@ -84,6 +86,7 @@ func (s *sched) step(t *sthread) {
 	s.cur = t
 	s.steps++
 	t.steps++
+	s.order = append(s.order, t.id)
 	t.resume <- struct{}{}
 	ev := <-t.yield
 	if ev == nil {
@@ -101,6 +104,9 @@ func (t *sthread) runnable() bool {
 func (s *sched) run(strategy int, budget int) {
 	for _, t := range s.threads {
 		s.step(t) // to the first yield (op-start park)
+	}
+	if len(s.forced) >= len(s.threads) {
+		s.forced = s.forced[len(s.threads):] // the recorded schedule starts with these same steps
 	}
 	var cur *sthread
 	preempt := map[int]bool{}
@@ -134,7 +140,17 @@ func (s *sched) run(strategy int, budget int) {
 			return
 		}
 		var pick *sthread
+		if len(s.forced) > 0 {
+			want := s.forced[0]
+			s.forced = s.forced[1:]
+			for _, t := range rs {
+				if t.id == want {
+					pick = t
+				}
+			}
+		}
 		switch {
+		case pick != nil:
 		case strategy == 0:
 			pick = rs[s.r.intn(len(rs))]
 		default:
@@ -778,6 +794,7 @@ func (tr *tracer) note(kind string, addr unsafe.Pointer, arg uint64) {
 }
 
 type outcome struct {
+	order      []int
 	protoTrace []string
 	prog     *program
 	strategy int
@@ -791,6 +808,9 @@ type outcome struct {
 	solo     string
 	trace    []string
 }
+
+// forcedSchedule, when set, is consumed by the next explore call (exact replay of a recorded schedule)
+var forcedSchedule []int
 
 func explore(p *program, strategy int, schedSeed uint64, budget int, keepTrace bool, freezeAt int) *outcome {
 	vshim.Hook = nil
@@ -833,7 +853,8 @@ func explore(p *program, strategy int, schedSeed uint64, budget int, keepTrace b
 	if tg.isCache() {
 		tg.c.cbs = nil
 	}
-	s := &sched{r: newRng(schedSeed), keepTr: false}
+	s := &sched{r: newRng(schedSeed), keepTr: false, forced: forcedSchedule}
+	forcedSchedule = nil
 	if tr != nil {
 		tr.tid = func() int {
 			if s.cur != nil {
@@ -926,6 +947,7 @@ func explore(p *program, strategy int, schedSeed uint64, budget int, keepTrace b
 	}
 	vshim.Hook = nil
 	out.problem = s.problem
+	out.order = s.order
 	out.hist = s.hist
 	out.steps = s.steps
 	out.trace = s.trace
@@ -1279,6 +1301,16 @@ func (o *outcome) write(w *bufio.Writer, id int) {
 	for _, f := range o.final {
 		fmt.Fprintf(w, "final %s\n", f)
 	}
+	for i, th := range o.prog.threads {
+		for _, l := range th {
+			fmt.Fprintf(w, "thread %d %s\n", i, l)
+		}
+	}
+	var ids []string
+	for _, x := range o.order {
+		ids = append(ids, fmt.Sprint(x))
+	}
+	fmt.Fprintf(w, "sched %s\n", strings.Join(ids, " "))
 	fmt.Fprintln(w, "end")
 }
 
@@ -1329,4 +1361,80 @@ func schedMode(a map[string]string) {
 	fmt.Fprintf(bw, "# explored %d schedules, %d scheduled steps\n", id, nSwitch)
 }
 
-func init() { modes["sched"] = schedMode }
+// schedReplay re-runs recorded programs with their exact schedules (corpus of past failures, replays):
+// file format = blocks of the history file ("hist … prog k=v…", "pre …", "thread i op", "sched ids…", "end").
+func schedReplay(a map[string]string) {
+	outdir := argStr(a, "out", ".")
+	f, err := os.Open(argStr(a, "file", ""))
+	if err != nil {
+		panic(err)
+	}
+	hf, _ := os.Create(outdir + "/hist.txt")
+	bf, _ := os.Create(outdir + "/monitors.txt")
+	hw, bw := bufio.NewWriter(hf), bufio.NewWriter(bf)
+	defer func() { hw.Flush(); bw.Flush(); hf.Close(); bf.Close() }()
+	sc := bufio.NewScanner(f)
+	sc.Buffer(make([]byte, 1<<20), 1<<24)
+	var p *program
+	var order []int
+	id := 0
+	for sc.Scan() {
+		l := strings.TrimSpace(sc.Text())
+		t := strings.Fields(l)
+		if len(t) == 0 {
+			continue
+		}
+		switch t[0] {
+		case "hist":
+			p = &program{}
+			order = nil
+			for _, kvs := range t {
+				if i := strings.Index(kvs, "="); i > 0 {
+					k, v := kvs[:i], kvs[i+1:]
+					switch k {
+					case "kind":
+						p.kind = v
+					case "small":
+						p.small = int(atoi64(v))
+					case "dflt":
+						p.dflt = atoi64(v)
+					case "cb":
+						p.cb = int(atoi64(v))
+					case "hm":
+						p.hashMd = int(atoi64(v))
+					case "seed":
+						p.seed = int(atoi64(v))
+					case "now":
+						p.now = atoi64(v)
+					}
+				}
+			}
+		case "pre":
+			p.prefill = append(p.prefill, strings.Split(strings.TrimPrefix(l, "pre "), " => ")[0])
+		case "thread":
+			i := int(atoi64(t[1]))
+			for len(p.threads) <= i {
+				p.threads = append(p.threads, nil)
+			}
+			p.threads[i] = append(p.threads[i], strings.Join(t[2:], " "))
+		case "sched":
+			for _, x := range t[1:] {
+				order = append(order, int(atoi64(x)))
+			}
+		case "end":
+			if p != nil && len(p.threads) > 0 {
+				forcedSchedule = order
+				o := explore(p, 0, 1, 20000, false, -1)
+				id++
+				o.write(hw, id)
+				for _, b := range o.monitors() {
+					fmt.Fprintf(bw, "%d %s\n", id, b)
+				}
+			}
+			p = nil
+		}
+	}
+	fmt.Fprintf(bw, "# explored %d schedules, 0 scheduled steps\n", id)
+}
+
+func init() { modes["sched"] = schedMode; modes["schedreplay"] = schedReplay }
